@@ -134,6 +134,12 @@ def run(ctx) -> None:
             continue
         for b in binds:
             kind = classify_table_init(b.ast.value, table)
+            if kind == "unknown" and isinstance(b.ast.value, ast.Name):
+                kinds = {k for h_, node_, k, d_ in c04.inherited_content(ctx, an, table) if h_ is init}
+                if "alias" in kinds:
+                    kind = "alias"
+                elif "unknown" not in kinds and kinds:
+                    kind = "copy" if kinds & {"comp", "copy_all", "loop_store"} else "fresh"
             if kind == "alias":
                 rep.violate("C02.R1", init, b.ast, f"self.{table} is bound to the parent's table object itself (`{ast.unparse(b.ast.value)}`): additions in either context show up in the other")
             elif kind == "unknown":
@@ -144,7 +150,7 @@ def run(ctx) -> None:
         rep.check("C02.R1", ok, init, binds[0].ast, f"self.{table} is bound on every path through the constructor", f"some path through the constructor leaves self.{table} unbound / shared")
         # copies come from the parent chosen at construction
         for b in binds:
-            if classify_table_init(b.ast.value, table) == "copy":
+            if classify_table_init(b.ast.value, table) == "copy" and not isinstance(b.ast.value, ast.Name):
                 src = {x.attr for x in ast.walk(b.ast.value) if isinstance(x, ast.Attribute)}
                 rep.check("C02.R1", table in src, init, b.ast, f"the copy is taken from the parent's {table}", f"self.{table} is copied from something else than the parent's {table}")
     # no rebinding later (a snapshot taken on entry or lazily is not a snapshot at creation)
